@@ -25,7 +25,9 @@ RULE = (
     "cases = (config, initial tree, bursts incl. ext ops / makedirs / api_resched / api_sched2, optional race plan "
     "(lookup call index 0-11, action delete|rename|recreate), optional final root deletion).  Oracle: no library thread "
     "ends with an unhandled exception; afterwards a probe in the root and in every start directory that kept path and "
-    "inode is reported; root deletion gives exactly one DirDeletedEvent(root), nothing after it, and a stopped emitter. "
+    "inode is reported; root deletion gives exactly one DirDeletedEvent(root) (none if the watch's event filter does not "
+    "admit it), nothing after it, and a stopped emitter - also exhaustively over recursive x emitter kind x 6 event "
+    "filters; one random case in four runs under an event filter. "
     "non-trivial = history has an ext op, a re-used name, an injected race that was actually hit, an API re-schedule or "
     "a root deletion; distinct = digest of the case"
 )
@@ -110,6 +112,13 @@ def run_case(case):
     _race.update(plan=None, count=0, hits=[])
     s = fsops.Session(cfg, case["init"])
     extra_handlers = []
+    flt = cfg.get("event_filter")
+    if flt is not None:
+        from watchdog import events as _ev
+
+        flt = [getattr(_ev, n) for n in flt]
+    # does the watch's filter let the root's own DirDeletedEvent through?  (C11: a filter only removes events)
+    admits_root_event = flt is None or any(issubclass(DirDeletedEvent, c) for c in flt)
     try:
         _race["root"] = s.root
         start_inodes = {p: os.lstat(os.path.join(s.root, p) if p else s.root).st_ino for p, k in s.start_tree.items() if k == "d"}
@@ -122,18 +131,18 @@ def run_case(case):
                     s.obs.unschedule(s.watch)  # removes every handler of the watch, the second one included
                     extra_handlers.clear()
                     try:
-                        s.watch = s.obs.schedule(s.handler, s.given, recursive=bool(cfg.get("recursive", True)))
+                        s.watch = s.obs.schedule(s.handler, s.given, recursive=bool(cfg.get("recursive", True)), event_filter=flt)
                     except OSError:
                         # schedule() may report a directory that vanished during its initial walk to the caller
                         # (an error returned to the application, not a dying thread); the application retries
                         if not case.get("race"):
                             raise
                         _race["plan"] = None
-                        s.watch = s.obs.schedule(s.handler, s.given, recursive=bool(cfg.get("recursive", True)))
+                        s.watch = s.obs.schedule(s.handler, s.given, recursive=bool(cfg.get("recursive", True)), event_filter=flt)
                 elif k == "api_sched2":
                     r2 = fsops.Recorder()
                     extra_handlers.append(r2)
-                    s.obs.schedule(r2.make_handler(), s.given, recursive=bool(cfg.get("recursive", True)))
+                    s.obs.schedule(r2.make_handler(), s.given, recursive=bool(cfg.get("recursive", True)), event_filter=flt)
                 elif k == "rmroot":
                     fsops.exec_op(("rmroot",), s.root, s.out)
                     root_deleted = True
@@ -164,13 +173,13 @@ def run_case(case):
             while time.monotonic() < deadline:
                 with s.rec.cond:
                     got = [e for e in s.rec.events if isinstance(e, DirDeletedEvent) and s.norm(e.src_path) == ""]
-                    if got:
+                    if got or (not admits_root_event and not any(em.is_alive() for em in emitters)):
                         break
                     s.rec.cond.wait(0.2)
             errs = s.thread_errors()
             if errs:
                 raise Violation(f"library thread died on root deletion: {errs[0][:3]}", "thread-died:" + errs[0][2].split("(")[0], {"trace": errs[0][3]})
-            if not got:
+            if not got and admits_root_event:
                 raise Violation("root deleted but no DirDeletedEvent for the root within 20 s", "root-deleted-unreported")
             end = time.monotonic() + 10
             while time.monotonic() < end and any(em.is_alive() for em in emitters):
@@ -180,13 +189,13 @@ def run_case(case):
             with s.rec.cond:
                 evs = list(s.rec.events)
             roots = [e for e in evs if isinstance(e, DirDeletedEvent) and s.norm(e.src_path) == ""]
-            if len(roots) != 1:
-                raise Violation(f"{len(roots)} DirDeletedEvents for the root", "root-deleted-count")
-            after = evs[evs.index(roots[0]) + 1 :]
+            if len(roots) != (1 if admits_root_event else 0):
+                raise Violation(f"{len(roots)} DirDeletedEvents for the root (event filter {cfg.get('event_filter')})", "root-deleted-count")
+            after = evs[evs.index(roots[0]) + 1 :] if roots else []
             if after:
                 raise Violation(f"events after the root's DirDeletedEvent: {after[:5]}", "events-after-root-deleted")
             if alive:
-                raise Violation("emitter thread still alive 10 s after the root was deleted", "emitter-not-stopped")
+                raise Violation(f"emitter thread still alive {'10' if admits_root_event else '30'} s after the root was deleted (event filter {cfg.get('event_filter')})", "emitter-not-stopped")
             errs = s.thread_errors()
             if errs:
                 raise Violation(f"library thread died on root deletion: {errs[0][:3]}", "thread-died:" + errs[0][2].split("(")[0], {"trace": errs[0][3]})
@@ -269,6 +278,10 @@ def classes_of(case, info):
         cl.append("name-reused")
     nt = bool(set(c.split(":")[0] for c in cl) & {"ext-op", "api-reschedule", "root-deletion", "race-hit", "name-reused"})
     cl.append("recursive" if case["cfg"].get("recursive", True) else "non-recursive")
+    if case["cfg"].get("event_filter"):
+        cl.append("filtered-watch")
+        if any(op[0] == "rmroot" for op in ops):
+            cl.append("root-deletion-under-filter")
     return nt, cl
 
 
@@ -280,6 +293,9 @@ def cases(draw, tier):
         "full": draw(st.sampled_from([False, False, True])),
         "bufsize": draw(st.sampled_from(c01.BUFSIZES)),
     }
+    if draw(st.integers(0, 3)) == 0:
+        # every filter keeps FileCreatedEvent: sentinels and probes are file creations
+        cfg["event_filter"] = draw(st.sampled_from(FILTERS))
     opts = {
         "max_bursts": 4 if tier == "quick" else 7,
         "max_ops": 6,
@@ -302,6 +318,7 @@ def cases(draw, tier):
 
 
 NSH = 16
+FILTERS = [["FileCreatedEvent"], ["FileCreatedEvent", "DirDeletedEvent"], ["FileSystemEvent"], ["FileCreatedEvent", "FileModifiedEvent", "FileSystemMovedEvent"], ["FileCreatedEvent", "FileDeletedEvent"]]
 
 EXH_STATES = c01.START_STATES + [
     [["mkdir", "a"], ["mkdir", "a/a"], ["mkdir", "a/ab"], ["create", "a/ab/a"], ["mkdir", "ab"], ["mkdir", "ab/a"], ["create", "b"], ["prebuild", "o1", [["a", "d"]], "d"]],
@@ -312,6 +329,16 @@ def exhaustive_cases(tier):
     """Every single op (thorough: every pair of ops, drained in between) from a few start states that contain sibling
     directories with prefix-related names; afterwards every start directory is probed (the oracle of run_case)."""
     opts = {"names": ["a", "ab"], "depth": 3, "ext": True}
+    # root deletion under every configuration: recursive x emitter kind x event filter (incl. filters that do not
+    # admit the root's DirDeletedEvent: nothing is delivered then, but the emitter still has to stop)
+    for init in EXH_STATES[:2]:
+        for rec in (True, False):
+            for full in (False, True):
+                for flt in [None] + FILTERS:
+                    cfg = {"recursive": rec, "full": full}
+                    if flt:
+                        cfg["event_filter"] = flt
+                    yield {"cfg": cfg, "init": init, "bursts": [[["create", "b"]], [["rmroot"]]]}
     for init in EXH_STATES:
         m0 = fsops.model_after_init(init)
 
@@ -359,7 +386,7 @@ def run_shard(spec):
                 continue
             probed[0] += info["probed"]
             nt, cl = classes_of(case, info)
-            st_.case(case, nt or case["bursts"][0][0][0] in ("move_out", "rmtree", "rename"), cl + ["exhaustive-op-then-probe"], sample=case if n % 30 == 1 else None)
+            st_.case(case, nt or case["bursts"][0][0][0] in ("move_out", "rmtree", "rename"), cl + ["exhaustive-root-deletion" if case["bursts"][-1][0][0] == "rmroot" else "exhaustive-op-then-probe"], sample=case if n % 30 == 1 else None)
         st_.extra["exhaustive_cases"] = n
         st_.extra["start_dirs_probed"] = probed[0]
         return st_
